@@ -98,6 +98,8 @@ class Prop(G.InputPropBase):
                 chunks = G.chunkings(rng, g, "random")
                 if i % 4 == 1:
                     chunks = G.with_ops(rng, chunks)     # output-side operations between the deliveries
+                elif i % 8 == 3:
+                    chunks = rng.choice(["!", "!!"]) + chunks     # reads that complete synchronously; the client re-arms first
                 line = "I %s,%s,%s / %s" % (chunks, G.hx(LETTERS[i % 8]), G.hx(sfx), G.hx(sfx))
             cs.append(Case(line, cfgs=["C07"], tag=tag))
         for n in ([10, 100, 1000, 10000, 100000] if tier == "quick" else [10, 100, 1000, 10000, 50000, 100000, 100000]):
